@@ -298,7 +298,13 @@ func vfC12Sequential(e *vfEnv, r *vfResult, idx int) { //nolint:cyclop,maintidx
 	universal := rng.IntN(3) == 0
 	var mux *UDPMuxDefault
 	if universal {
-		mux = NewUniversalUDPMuxDefault(UniversalUDPMuxParams{UDPConn: under, Logger: params.Logger, Net: params.Net}).UDPMuxDefault
+		uni := NewUniversalUDPMuxDefault(UniversalUDPMuxParams{UDPConn: under, Logger: params.Logger, Net: params.Net})
+		mux = uni.UDPMuxDefault
+		// the mux has asked one or two of the peers' addresses for its mapped address (server-reflexive gathering): a
+		// peer that shares its transport address with a STUN server must still reach the connection that wrote to it
+		for k := rng.IntN(3); k > 0; k-- {
+			_, _ = uni.GetXORMappedAddr(vfUDPAddr(vfMuxSrcPool[rng.IntN(len(vfMuxSrcPool))]), 200*time.Microsecond)
+		}
 	} else {
 		mux = NewUDPMuxDefault(params)
 	}
@@ -419,6 +425,7 @@ func vfC12Sequential(e *vfEnv, r *vfResult, idx int) { //nolint:cyclop,maintidx
 
 		return true
 	}
+	lazyReader := rng.IntN(2) == 0
 	for op := 0; op < nOps; op++ {
 		desc := ""
 		switch k := rng.IntN(16); {
@@ -568,6 +575,15 @@ func vfC12Sequential(e *vfEnv, r *vfResult, idx int) { //nolint:cyclop,maintidx
 			}
 			model.conns = map[string]*vfMConn{}
 		default:
+			continue
+		}
+		// what arrived is not always read at once: datagrams may still be queued when the connection is removed or the mux
+		// closed, and must not be handed out afterwards
+		if lazyReader && strings.HasPrefix(desc, "inbound(") && rng.IntN(2) == 0 {
+			if !model.closed && !checkBindings(desc) {
+				break
+			}
+
 			continue
 		}
 		if !checkQueues(desc) {
